@@ -69,14 +69,14 @@ func (gw *eventBasedGateway) run(ctx context.Context, sender tracing.ISenderHand
 					}
 				}
 
-				// terminationChannels is read by every alternative's token (terminate) and
-				// replaced by the winner's: both under this lock (the unsynchronised
-				// replacement was a data race with the losers' reads)
-				var channelsLock sync.RWMutex
+				// terminationChannels is written here only: every alternative's token looks
+				// its channel up (terminate) each time it enters its select, possibly only
+				// after the winner is determined — it must still find the notice then.
+				// (The winner used to replace the map by an empty one: a token that got to
+				// its select afterwards found a nil channel and was never withdrawn; it
+				// was also a data race with the other tokens' lookups.)
 				action := flowAction{
 					terminate: func(sequenceFlowId *schema.IdRef) chan bool {
-						channelsLock.RLock()
-						defer channelsLock.RUnlock()
 						return terminationChannels[*sequenceFlowId]
 					},
 					sequenceFlows: sequences,
@@ -84,15 +84,10 @@ func (gw *eventBasedGateway) run(ctx context.Context, sender tracing.ISenderHand
 						// only the first one is to flow
 						if atomic.CompareAndSwapInt32(&first, 0, 1) {
 							gw.tracer.Send(DeterminationMadeTrace{Node: gw.element})
-							channelsLock.Lock()
-							channels := terminationChannels
-							terminationChannels = make(map[schema.IdRef]chan bool)
-							channelsLock.Unlock()
-							for terminationCandidateId, ch := range channels {
+							for terminationCandidateId, ch := range terminationChannels {
 								if sequenceFlowId != nil && terminationCandidateId != *sequenceFlowId {
 									ch <- true
 								}
-								close(ch)
 							}
 							return action
 						} else {
